@@ -144,30 +144,11 @@ def tid(s):
 UNMATCHABLE = "(FSent 4999)"      # an effect no model sequence contains
 
 
-def falsy_exc(M):
-    """identifier of the class of the FALSY exception object (__bool__ False / __len__ 0) the body of message M raises, else
-    None.  TaskiqResult's `error` validator (exception_to_python: `if not exc: return None`) turns such an object into
-    error=None, so the assembled result is (is_err=True, error=None): the model has no truth value of exception objects and
-    says error = the raised class.  C07 here demands only is_err for these objects (C19 owns what the error field
-    carries): an observed (is_err true, error None) of such a message is printed with the raised class."""
-    if M.get("dep") == "fail":           # the dependency fails (a LookupError, possibly of a derived class): the body never runs
-        return E_DEP if (M.get("dep_x") or {}).get("truth") else None
-    o = M.get("out") or {}
-    if (o.get("x") or {}).get("truth"):
-        return o["raise"]
-    return None
-
-
-def c_eff(ev, lt, cx=None, fx=None):
+def c_eff(ev, lt, cx=None):
     """one log entry (without its `who`) -> Coq eff literal, or None for entries that are not model effects.
     cx (send side): the broker / stack the send must go through - hook indices are logged as 100 * broker + position,
-    the model numbers the positions of that one stack.  fx (receive side): see falsy_exc"""
+    the model numbers the positions of that one stack"""
     k = ev[0]
-    if fx is not None:
-        if k == "hook" and ev[1] in HOOKS_RES and ev[5] is True and ev[7] is None:
-            ev = ev[:7] + [fx] + ev[8:]
-        elif k == "save.enter" and ev[2] is True and ev[4] is None:
-            ev = ev[:4] + [fx] + ev[5:]
     if cx is not None:
         if k == "hook":
             if ev[2] // 100 != cx["b"]:
@@ -275,9 +256,8 @@ def c_case(case, obs):
     per, glob, late, stray = split_log(case, obs["log"])
     g = []
     cxs = send_ctx(case) if case["type"] == "send" else None
-    fxs = [falsy_exc(M) for M in case["msgs"]] if case["type"] == "recv" else None
     for w, ev in abstract_d10(case, per, glob):
-        t = c_eff(ev, lt, cxs[w] if cxs else None, fxs[w] if fxs else None)
+        t = c_eff(ev, lt, cxs[w] if cxs else None)
         if t is not None:
             g.append("(%s, %s)" % (C.cn(w), t))
     for e in stray:   # an event nobody owns: make the run unmatchable
@@ -379,7 +359,7 @@ def coq_show(ctx, case, obs):
     """replay helper: print the model's sequences for one case"""
     lt = LabelTable(case)
     if case["type"] == "recv":
-        body = "Definition st := %s.\n" % c_stack(case["mws"], lt)
+        body = "Definition st : list mw := %s.\n" % c_stack(case["mws"], lt)
         for i, M in enumerate(case["msgs"]):
             body += "Eval vm_compute in (%d, callback %s).\n" % (i, c_cfg(case, M, lt))
     else:
@@ -582,9 +562,6 @@ def oracle_c07(case, per, late, fail):
             continue
         s = saves[0]
         got = (s[2], s[3], s[4])
-        fx = falsy_exc(M)
-        if fx is not None and fx != E_NORESULT and got == (True, None, None) and (True, None, fx) in want:
-            got = (True, None, fx)        # a falsy exception object: only is_err is demanded (see falsy_exc)
         if s[1] != eff_id:
             fail("result stored under another task id", sig, evs)
         elif got not in want:
@@ -1139,14 +1116,7 @@ def gen_xclass(r, b, group=False):
     return x
 
 
-def falsy_allowed(case, M, b):
-    """a falsy exception as the task's OWN exception is generated only where nothing but `is_err` depends on its truth
-    value: not for the no-result signal (a falsy NoResultError loses its class in the result: reported, proposed finding)
-    and not where a dependency is to see it (`if found_exception and self.propagate_exceptions`: C12's subject)"""
-    return b != 0 and not (M["dep"] == "ok" and case["propagate"])
-
-
-def gen_xspec(r, b, group_ok, falsy_ok):
+def gen_xspec(r, b, group_ok):
     """what a task body (a failing dependency) raises instead of EXC[b](): returns (id, x) - see exc_instance in the driver"""
     x = {}
     if group_ok and r.random() < .12:
@@ -1162,8 +1132,6 @@ def gen_xspec(r, b, group_ok, falsy_ok):
         x.update(gen_xclass(r, b, group=True))
     else:
         x.update(gen_xclass(r, b))
-    if x.get("truth") and not falsy_ok:
-        del x["truth"]
     if r.random() < .45 or not x:
         chain = []
         for _ in range(r.choice([1, 1, 1, 2, 3])):
@@ -1209,8 +1177,7 @@ def gen_exotic(r, case):
             continue
         if M["style"] == "sync" and M["out"]["raise"] == 8:
             continue                         # finding D10 is keyed on exactly {"raise": 8}
-        if first is not None and r.random() < .35 and not (M["style"] == "sync" and first["raise"] == 8) and \
-                (not first["x"].get("truth") or falsy_allowed(case, M, first["raise"])):
+        if first is not None and r.random() < .35 and not (M["style"] == "sync" and first["raise"] == 8):
             # the same description as an earlier message: the same class, and (shared, mostly) the very same object
             if r.random() < .7:
                 first["x"]["shared"] = True
@@ -1218,15 +1185,14 @@ def gen_exotic(r, case):
             if not first["x"].get("shared"):
                 M["out"]["x"].pop("shared", None)
             continue
-        b, x = gen_xspec(r, M["out"]["raise"], True, falsy_allowed(case, M, M["out"]["raise"]))
+        b, x = gen_xspec(r, M["out"]["raise"], True)
         M["out"] = {"raise": b, "x": x}
         if first is None:
             first = M["out"]
     for M in case["msgs"]:
-        # the exception of a FAILING DEPENDENCY (a LookupError for the model): the same widening; it reaches nothing but
-        # the result, so a falsy one is fine here
+        # the exception of a FAILING DEPENDENCY (a LookupError for the model): the same widening
         if M["kind"] == "ok" and M["dep"] == "fail" and r.random() < EXC_P:
-            M["dep_x"] = gen_xspec(r, E_DEP, False, True)[1]
+            M["dep_x"] = gen_xspec(r, E_DEP, False)[1]
     exo = any((M.get("out") or {}).get("x") or M.get("dep_x") for M in case["msgs"])
     if r.random() < (.5 if exo else LOG_P):
         case["logging"] = True
@@ -1453,8 +1419,21 @@ def count_exotic(rep, case, M, evs, x, src):
         rep.count("raised-object:exotic:reached-the-receiver")
         if any(e[0] == "save.enter" and e[2] is True for e in evs):
             rep.count("raised-object:exotic:result-stored(is_err)")
-        if any(e[0] == "save.enter" and e[2] is True and e[4] is None for e in evs):
-            rep.count("raised-object:exotic:result-stored-with-empty-error(falsy exception)")
+        if x.get("truth"):
+            # a FALSY exception object (__bool__ False / __len__ 0) is an exception like any other: the full statement
+            eid = E_DEP if src else M["out"]["raise"]
+            names = {e[0] for e in evs}
+            kind = "no-result-signal" if eid == E_NORESULT else "error"
+            rep.count("raised-object:falsy:%sreached-the-receiver:%s" % (src, kind))
+            if any(e[0] == "save.enter" and e[2] is True and e[4] == eid for e in evs):
+                rep.count("raised-object:falsy:result-stored-with-the-raised-class")
+            if eid == E_NORESULT and "save.enter" not in names and "done" in names:
+                rep.count("raised-object:falsy:no-result-signal:nothing-stored")
+            if not src and M["dep"] == "ok":
+                rep.count("raised-object:falsy:open-dependency:propagate-%s:%s" % (
+                    "on" if case["propagate"] else "off", "saw-it" if "dep.saw" in names else "did-not-see-it"))
+            if any(e[0] == "hook" and e[1] == "on_error" for e in evs):
+                rep.count("raised-object:falsy:handed-to-on_error-hooks")
         if case.get("logging"):
             rep.count("raised-object:exotic:reached-the-receiver:logging-configured")
     if x.get("group") is not None:
@@ -1579,17 +1558,6 @@ def is_d10(case, sig):
     return M["style"] == "sync" and M["out"] == {"raise": 8}
 
 
-FALSY_NORES_SIG = "falsy_no_result_signal"      # proposed finding, corpus/C07/proposed/ (never generated; see falsy_allowed)
-
-
-def is_falsy_nores(case, sig):
-    i = sig.get("msg")
-    if case.get("type") != "recv" or i is None:
-        return False
-    M = case["msgs"][i]
-    return M.get("dep") != "fail" and falsy_exc(M) == E_NORESULT
-
-
 class Failer:
     """routes oracle failures to the report; failures inside the D10 region carry the signature flag `d10`
     (predicate of the known finding sync_generator_exit: task style == sync and the body raises GeneratorExit)"""
@@ -1599,12 +1567,11 @@ class Failer:
 
     def __call__(self, what, sig, evs):
         self.rep.fail("%s: %s" % (self.pid, what), self.case, observed=evs, expected="see the property statement",
-                      sig=dict(sig, d10=is_d10(self.case, sig), falsy_nores=is_falsy_nores(self.case, sig)))
+                      sig=dict(sig, d10=is_d10(self.case, sig)))
 
 
 def finish(rep, pid):
-    return rep.finish({D10_SIG: lambda f: bool(f["sig"].get("d10")),
-                       FALSY_NORES_SIG: lambda f: bool(f["sig"].get("falsy_nores"))}, {})
+    return rep.finish({D10_SIG: lambda f: bool(f["sig"].get("d10"))}, {})
 
 
 # ------------------------------------------------------------------------------------- shared run skeleton
